@@ -139,7 +139,9 @@ class Runner(object):
             with open(os.path.join(d, name.decode("utf8")), "wb") as f:
                 f.write(files[cid])
         # os.listdir order is whatever the filesystem gives; the model is told that order
-        self.listdir_order = [n.encode("utf8") for n in os.listdir(d)]
+        if not hasattr(self, "listdir_order"):
+            self.listdir_order = {}
+        self.listdir_order[fid] = [n.encode("utf8") for n in os.listdir(d)]
         return d
 
     # ---- running -------------------------------------------------------------------------------------------
@@ -255,7 +257,9 @@ class Runner(object):
             if os.path.exists(sink):
                 with open(sink, "rb") as f:
                     sink_s = hx(f.read())
-        return dict(res=res, peer=hx(peer), avail=int(bool(d.available)), maxdata=d._maxdata, lid=d._local_id,
+        link = self.link
+        conn = link.used.index(link.cur) if link.cur in link.used else len(link.used) - 1
+        return dict(conn=conn, res=res, peer=hx(peer), avail=int(bool(d.available)), maxdata=d._maxdata, lid=d._local_id,
                     storelen=len(d._io_manager._packet_store), now=self.clock.now, locks=locks, sink=sink_s,
                     ev="[" + ",".join(self.link.events) + "]", sink_kind=sink_kind)
 
@@ -266,6 +270,10 @@ class Runner(object):
                 out.append(self.run_op(op))
         finally:
             if self.loop is not None:
+                try:
+                    self.loop.run_until_complete(self.loop.shutdown_asyncgens())
+                except Exception:
+                    pass
                 self.loop.close()
             if self.tmp:
                 shutil.rmtree(self.tmp, ignore_errors=True)
@@ -311,7 +319,7 @@ def model_lines(scn, runner, detail=False):
     for fid, content in scn.get("files", {}).items():
         lines.append("sess file %d %s" % (fid, hx(content)))
     for did, ents in scn.get("dirs", {}).items():
-        order = getattr(runner, "listdir_order", None)
+        order = getattr(runner, "listdir_order", {}).get(did)
         if order is not None and sorted(order) == sorted(n for n, _ in ents):
             m = dict(ents)
             ents = [(n, m[n]) for n in order]
